@@ -536,9 +536,11 @@ theorem inv_step {evs : List Ev} {t : T} (h : Inv evs t) (e : Ev) : Inv (evs ++ 
                 valid := fun _ => (hv.mono _).congr rfl rfl rfl }
       · exact h.mono _
     · exact h.mono _
-  | sendData d =>
+  | sendData d err =>
     simp only [step]
-    split <;> exact h.mono _
+    split
+    · exact h.mono _
+    · split <;> exact h.mono _
   | sendRtp d pok =>
     simp only [step]
     split
@@ -626,7 +628,9 @@ theorem step_to_connected (t : T) (e : Ev) (h0 : t.state ≠ .connected) (h1 : (
     split at h1
     · split at h1 <;> simp_all
     · simp_all
-  | sendData d => simp only [step] at h1; split at h1 <;> simp_all
+  | sendData d err =>
+    simp only [step] at h1
+    split at h1 <;> (try split at h1) <;> simp_all
   | sendRtp d pok =>
     simp only [step] at h1
     split at h1 <;> (try split at h1) <;> simp_all
@@ -636,7 +640,7 @@ theorem step_to_connected (t : T) (e : Ev) (h0 : t.state ≠ .connected) (h1 : (
 
 /-- `_send_data` / `_send_rtp` refuse (ConnectionError) unless CONNECTED, and change nothing. -/
 theorem send_refused_unless_connected (t : T) (d : Bytes) (h : t.state ≠ .connected) :
-    step t (.sendData d) = (t, [.refused]) ∧ ∀ pok, step t (.sendRtp d pok) = (t, [.refused]) := by
+    (∀ err, step t (.sendData d err) = (t, [.refused])) ∧ ∀ pok, step t (.sendRtp d pok) = (t, [.refused]) := by
   simp [step, h]
 
 /-- `_send_rtp` never changes the transport, whether or not libsrtp accepts the packet; when `protect` refuses
@@ -648,6 +652,19 @@ theorem sendRtp_protect_failure_visible (t : T) (d : Bytes) (h : t.state = .conn
     Eff.raised "Error" ∈ (step t (.sendRtp d false)).2 := by
   simp only [step, h, ne_eq, not_true_eq_false, ↓reduceIte, Bool.false_eq_true]
   split <;> simp
+
+/-- `_send_data` never changes the transport, whatever OpenSSL answers; when `SSL.Connection.send` refuses the
+message (empty, or longer than a DTLS record can be) the exception reaches the caller: not a silent loss. -/
+theorem sendData_state_unchanged (t : T) (d : Bytes) (err : Option String) :
+    (step t (.sendData d err)).1 = t := by
+  simp only [step]; split <;> (try split) <;> rfl
+
+theorem sendData_ssl_failure_visible (t : T) (d : Bytes) (k : String) (h : t.state = .connected) :
+    Eff.raised k ∈ (step t (.sendData d (some k))).2 := by
+  simp [step, h]
+
+example : (step { (init [] true .client) with state := .connected } (.sendData [] (some "SysCallError"))).2 =
+    [.sentData [], .raised "SysCallError"] := by decide
 
 /-- Under the invariant, whatever is handed to a data / RTP / RTCP receiver or sent as application data /
 SRTP in a step, the transport was CONNECTED when the step began. -/
@@ -698,7 +715,7 @@ theorem step_payload_connected {evs : List Ev} {t : T} (h : Inv evs t) (e : Ev) 
     · rename_i hc
       exact h.pump hc
     · simp at he; subst he; simp [isDelivery, isSent] at hp
-  | sendData d =>
+  | sendData d err =>
     simp only [step] at he
     split at he
     · simp at he; subst he; simp [isDelivery, isSent] at hp
@@ -781,7 +798,7 @@ theorem connected_stays {evs : List Ev} {t : T} (h : Inv evs t) (hc : t.state = 
     split
     · split <;> simp [hc]
     · exact hc
-  | sendData d => simp only [step]; split <;> exact hc
+  | sendData d err => simp only [step]; split <;> (try split) <;> exact hc
   | sendRtp d pok => simp only [step]; split <;> (try split) <;> exact hc
   | stop => simp only [step]; split <;> (try split) <;> simp [hc]
 
@@ -834,7 +851,7 @@ RTP packet failing authentication, a send. -/
 def exGood : List Ev :=
   [.start exFps true, .hsWant (.pkt [22, 1] .error .notAsked), .hsOk exDg "SRTP_AES128_CM_SHA1_80" exMat,
    .pump (.pkt [23, 0] (.data [1, 2]) .notAsked), .pump (.pkt [128, 0, 9] .notAsked (.ok [128, 0, 7])),
-   .pump (.pkt [128, 0, 9] .notAsked .fail), .sendData [5]]
+   .pump (.pkt [128, 0, 9] .notAsked .fail), .sendData [5] none]
 
 example : (run (init TABLE true .auto) exGood).1.state = .connected := by decide
 example : (run (init TABLE true .auto) exGood).2 =
@@ -847,7 +864,7 @@ example : Validated exGood (run (init TABLE true .auto) exGood).1 :=
 /-- the intruder: wrong certificate, application data coalesced with the last handshake flight. -/
 def exIntruder : List Ev :=
   [.start exFps false, .hsWant (.pkt [22, 1] (.data [69, 86, 73, 76]) .notAsked),
-   .hsOk [(strOf "sha-256", [0xAB, 0x02])] "SRTP_AES128_CM_SHA1_80" exMat, .sendData [5], .stop]
+   .hsOk [(strOf "sha-256", [0xAB, 0x02])] "SRTP_AES128_CM_SHA1_80" exMat, .sendData [5] none, .stop]
 
 example : run (init TABLE true .auto) exIntruder =
     ({ init TABLE true .client with state := .failed, encrypted := true, fps := exFps },
@@ -1015,5 +1032,112 @@ a packet 128 behind, the receiver silently drops it -/
 example : (Link.run (effWindow 1024) (effWindow 0) true {} [(5000, false), (4873, false), (4872, false)]).2 =
     [.delivered, .delivered, .rxOld] := by decide
 example : effWindow 1024 ≤ effWindow 1024 := by decide
+
+/-! ## `_write_ssl`: records, the BIO byte stream and datagrams
+
+"every data message sent by one side is received intact": DTLS never re-assembles a record, so the record that
+carries a message has to leave `_write_ssl` in one piece, at the start of a datagram. -/
+
+/-- A record that fits the `bio_read` size leaves an empty BIO as exactly one datagram, nothing stays behind. -/
+theorem sendRecord_whole {chunk : Nat} {r : Bytes} (hne : r ≠ []) (hfit : r.length ≤ chunk) :
+    sendRecord chunk [] r = (some r, []) := by
+  have ht : r.take chunk = r := List.take_of_length_le hfit
+  have hd : r.drop chunk = [] := List.drop_of_length_le hfit
+  simp [sendRecord, writeSsl, ht, hd, hne]
+
+/-- A bare `_write_ssl` on an empty BIO sends nothing. -/
+theorem writeSsl_empty (chunk : Nat) : writeSsl chunk [] = (none, []) := by
+  simp [writeSsl]
+
+/-- A record LONGER than the `bio_read` size is cut: the datagram is a proper prefix (the peer's OpenSSL discards it),
+and the tail stays in the BIO. -/
+theorem sendRecord_cut {chunk : Nat} {r : Bytes} (hpos : 0 < chunk) (hlong : chunk < r.length) :
+    ∃ d, (sendRecord chunk [] r).1 = some d ∧ d.length = chunk ∧ d ≠ r ∧
+      (sendRecord chunk [] r).2.length = r.length - chunk ∧ (sendRecord chunk [] r).2 ≠ [] := by
+  have hlen : (r.take chunk).length = chunk := by simp [List.length_take]; omega
+  have hne : r.take chunk ≠ [] := by
+    intro h; rw [h] at hlen; simp at hlen; omega
+  refine ⟨r.take chunk, ?_, hlen, ?_, ?_, ?_⟩
+  · simp [sendRecord, writeSsl, hne]
+  · intro h; rw [h] at hlen; omega
+  · simp [sendRecord, writeSsl, hne]
+  · simp only [sendRecord, writeSsl, List.nil_append, hne, if_false]
+    intro h
+    have : (r.drop chunk).length = 0 := by rw [h]; rfl
+    simp at this; omega
+
+/-- What a cut leaves behind goes out FIRST in the next datagram: the next record no longer starts a datagram (the
+peer demultiplexes / parses garbage, the message is lost although it was small enough). -/
+theorem sendRecord_after_cut {chunk : Nat} {pending r : Bytes} (hp : pending ≠ []) (hfit : pending.length ≤ chunk) :
+    ∃ d, (sendRecord chunk pending r).1 = some d ∧ pending <+: d := by
+  have hne : (pending ++ r).take chunk ≠ [] := by
+    cases pending with
+    | nil => exact absurd rfl hp
+    | cons a as =>
+      cases chunk with
+      | zero => simp at hfit
+      | succ n => simp
+  refine ⟨(pending ++ r).take chunk, by simp [sendRecord, writeSsl, hne], ?_⟩
+  rw [List.take_append, List.take_of_length_le hfit]
+  exact List.prefix_append _ _
+
+/-- One read per call (the pinned code) is `writeSsl`. -/
+theorem writeReads_single (n : Nat) (bio : Bytes) :
+    writeReads [n] bio = ((writeSsl n bio).1.toList, (writeSsl n bio).2) := by
+  simp only [writeReads]
+  split <;> rename_i h <;> simp [h, writeReads]
+
+/-- Reading again after a record that fitted (a draining `_write_ssl`) changes nothing: the BIO is empty. -/
+theorem writeReads_whole {chunk : Nat} {r : Bytes} (more : List Nat) (hne : r ≠ []) (hfit : r.length ≤ chunk) :
+    writeReads (chunk :: more) r = ([r], []) := by
+  have h := sendRecord_whole hne hfit
+  simp only [sendRecord, List.nil_append] at h
+  have hmore : ∀ ns : List Nat, writeReads ns [] = ([], []) := by
+    intro ns; induction ns with
+    | nil => rfl
+    | cons n ns ih => simp [writeReads, writeSsl_empty, ih]
+  simp [writeReads, h, hmore]
+
+/-- Any run of `_send_data` calls with records that fit (and bare `_write_ssl` calls in between), starting from an
+empty BIO: every record crosses as exactly one datagram of its own, bare calls send nothing, the BIO ends empty. -/
+theorem sendRecords_whole {chunk : Nat} (steps : List (Option Bytes))
+    (h : ∀ r, some r ∈ steps → r ≠ [] ∧ r.length ≤ chunk) :
+    sendRecords chunk [] steps = (steps, []) := by
+  induction steps with
+  | nil => rfl
+  | cons s rest ih =>
+    have ih' := ih (fun r hr => h r (List.mem_cons_of_mem _ hr))
+    cases s with
+    | none =>
+      simp [sendRecords, sendRecord, writeSsl_empty, ih']
+    | some r =>
+      obtain ⟨hne, hfit⟩ := h r (List.mem_cons_self)
+      simp [sendRecords, sendRecord_whole hne hfit, ih']
+
+/-- With the pinned `bio_read(1500)` and the 37 bytes the negotiated AES-GCM suites add to a message (13 header,
+8 explicit nonce, 16 tag): every data message of 1..1463 bytes leaves as one whole record. -/
+theorem data_messages_whole_1500 (recs : List Bytes) (h : ∀ r ∈ recs, 1 + 37 ≤ r.length ∧ r.length ≤ 1463 + 37) :
+    sendRecords 1500 [] (recs.map some) = (recs.map some, []) := by
+  apply sendRecords_whole
+  intro r hr
+  obtain ⟨x, hx, hxr⟩ := List.mem_map.mp hr
+  cases hxr
+  obtain ⟨h1, h2⟩ := h r hx
+  refine ⟨?_, by omega⟩
+  intro h0; rw [h0] at h1; simp at h1
+
+/-- in small: a 5-byte record through `bio_read(4)` is cut and its last byte poisons the next datagram; through
+`bio_read(5)` it is whole, a bare `_write_ssl` in between sends nothing -/
+example : sendRecords 4 [] [some [9, 8, 7, 6, 5], some [1, 2, 3]] = ([some [9, 8, 7, 6], some [5, 1, 2, 3]], []) := by decide
+example : sendRecords 5 [] [some [9, 8, 7, 6, 5], none, some [1, 2, 3]] = ([some [9, 8, 7, 6, 5], none, some [1, 2, 3]], []) := by
+  decide
+/-- the hypotheses of `data_messages_whole_1500` / `sendRecord_cut` are satisfiable: a 1244-byte message (1281-byte
+record) is whole with 1500 and cut with 1280 -/
+example : ∀ r ∈ [List.replicate 1281 (7 : Nat)], 1 + 37 ≤ r.length ∧ r.length ≤ 1463 + 37 := by
+  intro r hr
+  rw [List.mem_singleton.mp hr, List.length_replicate]
+  omega
+example : (0 : Nat) < 1280 ∧ 1280 < (List.replicate 1281 (7 : Nat)).length := by
+  rw [List.length_replicate]; omega
 
 end Aiortc.Props.C04
